@@ -253,7 +253,7 @@ def check(rec, kind, idx, rng, tier):
             if len(present):
                 tvals = [v.item() for v in rng.choice(present, size=min(len(present), int(rng.integers(1, 3))), replace=False)] + [9.0]
     if metric == 'GREAT_CIRCLE':
-        cx, cy = float(rng.choice([0.5, 1.0, 2.0, 10.0])), float(rng.choice([0.5, 1.0, 2.0, 5.0]))
+        cx, cy = float(rng.choice([0.5, 1.0, 2.0, 10.0, 1e-4, 1e-5])), float(rng.choice([0.5, 1.0, 2.0, 5.0, 1e-4, 1e-5]))      # down to ~1 m cells
         x0 = float(rng.uniform(-170, 170 - cx * W)) if cx * W < 340 else -170.0
         y0 = float(rng.uniform(-85, 85 - cy * H)) if cy * H < 170 else -85.0
         geom = dict(cx=cx, cy=cy, x0=x0, y0=y0, ydesc=bool(rng.random() < 0.5), xdesc=False)
